@@ -1,4 +1,5 @@
 """C12 User splicer code is carried into the named blocks unchanged (DESIGN.md 6/C12)."""
+import json
 from contracts.util_splicer import create_splicer, get_splicers
 from contracts.util_write import write_continue_plain, user_line_identity, user_line_identity_carved
 
@@ -54,6 +55,12 @@ def run(ctx):
     ctx.pyvc([create_splicer, get_splicers, write_continue_plain, user_line_identity_carved, user_line_identity] + wrapf_splicer.UNITS, mons)
     yaml_splicer_files(ctx)
     # bounded stand-ins (never counted as proved): reader on whole-block orders; end-to-end round trip of every block
+    rc = ctx.monitor("m_corpus_rel", "psearch", 400, ctx.seed, 16, json.dumps({"rel": ["feedback"]}))
+    ctx.bounded.append({"monitor": "m_corpus_rel", "inputs_tried": rc["tried"], "violation": rc["violation"],
+                        "kind": "every upstream regression input: each generated C / Fortran file (up to 3 per input) fed back as a "
+                                "splicer file reproduces itself, up to leading indentation and trailing blanks"})
+    if rc["violation"]:
+        ctx.violation("bounded/m_corpus_rel", {"inputs": rc["inputs"], "observed": rc["violation"]}, True)
     for mon, n, kind in (("m_get_splicers", 1500, "real get_splicers against a reference reader: every order of 2-3 blocks over "
                                                  "6 dotted tags, all files of <= 3 marker/text lines, random files"),
                          ("m_splicer_e2e", 40, "3 libraries (nested namespaces, classes with overloads and defaults, a C "
